@@ -3,6 +3,7 @@
 package verifsim
 
 import (
+	"bytes"
 	"context"
 	"encoding/json"
 	"fmt"
@@ -590,6 +591,14 @@ func newWorldA(p *Plan, out *Outcome, preStart func(w *worldA)) *worldA {
 				}
 				return 0
 			}
+		}
+		if ma := uint64(w.cfg.GetCollectionConfig().GetMaxAlloc()); ma > 0 && w.heapNext >= ma && w.pendingEj == nil {
+			// a memory check the model has not been told about: the monitor took a
+			// tick that had waited in its ticker's channel while the previous check was
+			// still in progress (a worker stuck on a full outgoing queue). The reading
+			// waits for the next check that starts on a tick of its own.
+			w.out.Probe("memory_reading_postponed_check_in_progress")
+			return 0
 		}
 		v := w.heapNext
 		w.heapNext = 0
@@ -1364,7 +1373,7 @@ func (w *worldA) hooks() {
 				stalledNow = true
 			}
 		}
-		if strings.Contains(tk.Key, "monitor") && w.heapNext > 0 && !stalledNow {
+		if strings.Contains(tk.Key, "monitor") && w.heapNext > 0 && !stalledNow && !checkAllocInProgress() {
 			ma := uint64(w.cfg.GetCollectionConfig().GetMaxAlloc())
 			if ma > 0 && w.heapNext >= ma {
 				w.pendingEj = &ejection{at: time.Now(), step: w.out.Steps, heap: w.heapNext, maxAlloc: ma, before: w.snapshotBuffers(), stalled: map[int]bool{}}
@@ -1517,4 +1526,12 @@ func tieOrder(seed uint64) func(ts []*types.Trace) {
 			return ts[i].TraceID < ts[j].TraceID
 		})
 	}
+}
+
+// checkAllocInProgress: the collector's monitor goroutine is still inside a
+// memory check (waiting for a worker that is stuck on a full outgoing queue);
+// a tick fired now only waits in its ticker's channel.
+func checkAllocInProgress() bool {
+	n := runtime.Stack(stackBuf, true)
+	return bytes.Contains(stackBuf[:n], []byte("(*InMemCollector).checkAlloc("))
 }
